@@ -25,7 +25,7 @@ VARIABLES gty, gw, gbase, gopt,     \* (distinctive names: a variable called lik
                                       \* generated First before, and this call gets the same / a new component map
 vars == <<gty, gw, gbase, gopt, ghist>>
 
-NoWrap == {"ES", "Tree"}      \* generation dies on them: not bases here, they are the witness cases of those listed findings
+NoWrap == {"ES"}      \* generation dies on it: not a base here, it is the witness case of that listed finding
 AllBases == BaseKinds \cup (DefNames \ NoWrap)
 (* Some case lines of the DeepNames families exceed the 8 KB up to which concurrent CSVWrite     *)
 (* calls are atomic: the pipeline runs "rest" (all bases, many workers, writes the lines below     *)
